@@ -101,4 +101,30 @@ CLAIMS = {
         note='Does NOT decide equality with the bit-matrix model for all dimensions, the SWAR popcount formulas, nor that the solver '
              'returns the unique solution iff full column rank. ' + BASE,
         technique='constant-geometry consistency, constant-data comparison, loop trip count, guard-vs-extent registry'),
+    'C05': dict(
+        text='"Depends only on (k, n, N1, seed), same for encoder and decoder, after any history" is decided by effect analysis of the matrix '
+             'constructor and everything it calls, its call-site arguments and role independence, PRNG seeding dominating every draw '
+             '(inter-procedurally), accepted seeds being valid PRNG seeds, and the Park-Miller / RFC scaling proofs of C19; the '
+             'structurally visible part of the RFC 5170 shape (N1 distinct ones per source column, exact staircase) is checked from loop '
+             'ranges and insertion arguments.',
+        design_ref='DESIGN.md section 6 C05; rules R-PURE-PCHK, R-SRAND-DOM, R-PARAM(seed,N1), R-SEEDRANGE, R-PRNG-STEP, R-FPSCALE, R-STAIRCASE, R-COLFILL, R-VERBOSITY',
+        note='Does NOT decide that the left-side fill reproduces RFC 5170\'s matrix entry for entry (choice list, replacement, extra-entry rule). ' + BASE,
+        technique='effect/purity analysis, inter-procedural dominance of seeding, affine loop-range sets of inserted positions'),
+    'C12': dict(
+        text='Cross-session channels are exactly a reviewed table of writable globals/statics with their permitted writers; each is shown '
+             'benign by its own rule (PRNG re-seeded before every draw with an accepted seed; RS tables written only by parameterless '
+             'one-shot generators and initialised before use; trace level only controls print regions; libc rand() only permutes an order). '
+             'A new writable static makes the check answer ANALYSIS-BROKEN.',
+        design_ref='DESIGN.md section 6 C12; rules R-GLOBALS, R-VERBOSITY, R-SRAND-DOM, R-PRNG-EFFECT, R-PARAM(seed), R-TABLE-WRITERS, R-INIT-BEFORE-USE',
+        note='Everything else a session touches is reached through its own control block (pointer parameters); heap/allocator state is '
+             'outside the library. ' + BASE,
+        technique='who-may-write rule over all stores to globals + per-global benignness rules'),
+    'C15': dict(
+        text='Whole statement, given a one-line lemma: the query answers true iff no extra entries and N1 even (truth table over path '
+             'conditions), every entry beyond fill and staircase is counted into the marker, each source column has exactly N1 ones, the '
+             'parity columns form the exact staircase, the decoder assumes a zero last symbol only under that answer (zero buffer of the '
+             'symbol length, ESI n-1), and encoder and decoder build the same matrix.',
+        design_ref='DESIGN.md section 6 C15; rules R-FLAG-TRUTH, R-EXTRA-MARK, R-COLFILL, R-STAIRCASE, R-NULLFEED, R-PURE-PCHK',
+        note='The lemma (sum of all rows of H) is the only non-mechanical step and is written in DESIGN.md. ' + BASE,
+        technique='truth-table enumeration over branch conditions, counting rule, affine loop-range sets, guard/dominance rules'),
 }
